@@ -141,6 +141,15 @@ def transitions(ntags):
         ops.append(('set', i, 2))
         ops.append(('set2', i))           # assign a 2-valued object: must be rejected
         ops.append(('setF', i, 0))        # assign a foreign-class object: must be rejected
+    # the same index operations with the index as a NumPy integer (what argmin / arange / a loop over an index array hand over)
+    for i in (-2, -1, 0, 1, 2, 7):
+        ops.append(('insertN', i, 1))
+        ops.append(('popN', i))
+        ops.append(('delN', i))
+        ops.append(('setN', i, 2))
+    # extend by a plain Python iterable of objects whose LAST item is unacceptable: refused, and refused before anything was stored
+    for v in range(4):
+        ops.append(('extendL', v))
     ops.append(('insert', 0, 2))
     ops.append(('insert2', 1))            # insert a 2-valued object: rejected
     ops.append(('pop',))
@@ -179,6 +188,14 @@ def ref_apply(tags, op):
         l.reverse()
     elif k == 'clear':
         l.clear()
+    elif k == 'insertN':
+        l.insert(op[1], op[2])
+    elif k == 'popN':
+        ret = l.pop(op[1])
+    elif k == 'delN':
+        del l[op[1]]
+    elif k == 'setN':
+        l[op[1]] = op[2]
     elif k == 'set2' or k == 'setF':
         raise TypeError('rejected')   # wrong operand: any exception will do, also when the index is out of range
     else:
@@ -212,6 +229,20 @@ def lib_apply(m, o, op):
     if k == 'setF':
         o[op[1]] = foreign(m.cname)[op[2]][1]
         return None
+    if k == 'insertN':
+        return o.insert(np.int64(op[1]), m.build((op[2],)))
+    if k == 'popN':
+        return o.pop(np.int64(op[1]))
+    if k == 'delN':
+        del o[np.int32(op[1])]
+        return None
+    if k == 'setN':
+        o[np.int64(op[1])] = m.build((op[2],))
+        return None
+    if k == 'extendL':
+        bad = [foreign(m.cname)[0][1], m.build((1, 2)), foreign(m.cname)[1][1], m.build(())][op[1]]
+        items = [m.build((1,)), m.build((2,)), bad]
+        return o.extend(items if op[1] % 2 == 0 else (x for x in items))
     if k == 'append2':
         return o.append(m.build((1, 2)))
     if k == 'insert2':
@@ -271,7 +302,7 @@ def check_step(ctx, m, tags, op, cid):
     if after != exp:
         ctx.fail(cid, site, 'mismatch', params,
                  '%s on %s%r left %r, a list holds %r' % (opname(op), cname, list(tags), after, list(exp)))
-    if op[0] == 'pop':
+    if op[0] in ('pop', 'popN'):
         if type(got) is not m.C:
             ctx.fail(cid, site, 'returns:' + type(got).__name__, params, 'pop returned %s' % type(got).__name__)
         elif m.read(got) != (expret,):
